@@ -6,6 +6,7 @@ sampled SQL statement boundary and at every op return (file snapshot opened by t
 storage class), plus dirty restart-and-continue, clean restart, clock jumps (forward and
 backward) and slow statements.  Oracle: prefix in issue order, durability lower bounds,
 bounded tail, no split of bucket-level operations on the lazily-committing store."""
+import copy
 import os
 
 from sim import actors, gen, seams
@@ -23,6 +24,7 @@ class BlindEditor(actors.Party):
     def __init__(self, r, cfg, b):
         super().__init__(r, cfg)
         self.b = b
+        self.last_rl = None
 
     def step(self):
         r = self.r
@@ -30,7 +32,11 @@ class BlindEditor(actors.Party):
         if x < 0.3:
             return {"op": "replace", "b": self.b, "k": r.randrange(0, 1000), "ev": self.ev()}
         if x < 0.45:
-            return {"op": "replace_last_blind", "b": self.b, "ev": self.ev()}
+            if self.last_rl is not None and r.random() < 0.3:
+                # the very same heartbeat again (a watcher repeating itself): a write like any other
+                return {"op": "replace_last_blind", "b": self.b, "ev": copy.deepcopy(self.last_rl), "repeat": True}
+            self.last_rl = self.ev()
+            return {"op": "replace_last_blind", "b": self.b, "ev": copy.deepcopy(self.last_rl)}
         s = {"op": "delete", "b": self.b}
         if r.random() < 0.1:
             s["never"] = True
@@ -58,6 +64,8 @@ class Ticker(actors.Party):
         prof = c["clock"]
         if r.random() < 0.15:
             return {"op": "slow", "stmt": r.randrange(1, 6), "us": r.choice([1_000, 2_000_000, 15_000_000])}
+        if r.random() < 0.12:
+            return {"op": "fault_commit"}
         if prof == "burst":
             us = r.randrange(0, 50_000)
         elif prof == "trickle":
@@ -175,7 +183,7 @@ class C06(Check):
     )
     expected_probes = [
         "crash_inside_bulk", "crash_inside_delete_bucket", "fault_restart_dirty", "restart_lost_writes", "restart_clean", "fault_clock_backward",
-        "fault_slow_statement", "bulk_over_50", "bulk_over_100", "bulk_mixed_upsert_insert", "delete_live", "replace_last_blind", "client_read", "delete_bucket_with_events", "rejected_op_with_buffered_writes",
+        "fault_slow_statement", "bulk_over_50", "bulk_over_100", "bulk_mixed_upsert_insert", "delete_live", "replace_last_blind", "client_read", "delete_bucket_with_events", "rejected_op_with_buffered_writes", "fault_commit_failed",
     ]
     assumptions = [
         "process death only: completed write()s survive (no power loss, torn pages, EIO or ENOSPC: Python's sqlite3 offers no VFS seam)",
